@@ -153,6 +153,19 @@ theorem getItem_ok (s : Str) (i : Int) (h : -(s.length : Int) ≤ i ∧ i < s.le
   | none => simp at h
   | some v => exact ⟨v, rfl, rfl⟩
 
+/-- never a non-ValueError exception; on success the string is unchanged and ASCII -/
+@[spec] theorem asciiOnly_spec (s : Str) :
+    ⦃⌜True⌝⦄ asciiOnly s ⦃post⟨fun r => ⌜r = s ∧ AllIn isAscii s⌝, fun e => ⌜e = .unicodeError⌝⟩⦄ := by
+  apply triple_of_holds
+  unfold asciiOnly
+  by_cases h : s.all (fun c => decide (c < 128)) = true
+  · rw [if_pos h]
+    refine ⟨rfl, ?_⟩
+    intro c hc
+    simpa using (List.all_eq_true.mp h) c hc
+  · rw [if_neg h]
+    rfl
+
 /-! ## arithmetic -/
 
 @[spec] theorem pymod_spec (a b : Int) (h : b ≠ 0) :
